@@ -59,6 +59,17 @@ Theorem C11_dump_alloc_bound :
 Proof. exact dump_alloc_bound. Qed.
 Print Assumptions C11_dump_alloc_bound.
 
+(* DumpLogs (a total function of the directory content: it terminates on every
+   input) hands the callback only entries of at most MaxEntrySize bytes, whatever
+   the files contain and however they are named *)
+Theorem C11_dump_logs_alloc_bound :
+  forall badname files after before,
+    match dump_logs badname files after before with
+    | DumpOk es | DumpErr es => Forall (fun e : N * bytes => len (snd e) <= MaxEntrySize) es
+    end.
+Proof. exact dump_logs_alloc_bound. Qed.
+Print Assumptions C11_dump_logs_alloc_bound.
+
 (* Filer.Open of a sealed segment succeeds only on a file of >= 32 bytes whose
    first 64-bit word is the magic (bytes 4..7, incl. the version byte, zero)
    and whose header names this very segment: a short file, a damaged magic or
